@@ -245,7 +245,13 @@ def compare_loop(r, trace, mo):
     code, payload, mtrace = v[1]
     if code in (10, 11):
         return 'skip:%s apportionment tied (model)' % ('party' if code == 10 else 'district')
-    itrace = [canon_impl_state(st) for st in (trace or [])]
+    import votelib.evaluate.core as _core
+    if r[0] == 'ok' and any(isinstance(p, _core.Tie) for row in r[1][0].values() for p in row):
+        return 'skip:Tie key in the returned matrix (judged by the checker stream)'
+    try:
+        itrace = [canon_impl_state(st) for st in (trace or [])]
+    except (TypeError, ValueError, KeyError, AttributeError):
+        return 'skip:iteration state of the implementation cannot be encoded (judged by the checker stream)'
     mtr = [canon_model_state(st) for st in mtrace]
     if code == 99 and len(itrace) >= LOOP_FUEL:
         return 'skip:more iterations than the model fuel'
